@@ -47,10 +47,12 @@ def _mutate(name):
         cc.Compiler.visit_DefineSlot = ns['visit_DefineSlot']
         return
     if name == 'no_global_merge':
-        new = code.replace('template("econtext.update(rcontext)")', '[]')
+        # global definitions made by a macro are not carried over to its caller
+        cc.Compiler._call_macro = lambda self, call: call
+        return
     elif name == 'fill_left_behind':
         import re
-        new = re.sub(r'template\("econtext.update\(rcontext\)"\) \+\n\s+cleanup', 'template("econtext.update(rcontext)")', code)
+        new = re.sub(r'\)\) \+\n\s+cleanup\n', '))\n', code)
     elif name == 'extend_drops_appendleft':
         new = code.replace('orelse=append,', 'orelse=[],')
     elif name == 'slot_default_when_filled':
